@@ -758,7 +758,7 @@ def check_C17(ctx):
 def check_C18(ctx):
     ctx.rule = ("spec/HpoCompare.tla defines Ontology::compare as set differences of two abstract ontologies (added/removed by id; changed = same id and name, direct parents, obsolete flag or "
                 "effective replacement differ; records: name or direct term set) and TLC checks CompareLaws (self-compare empty, swap symmetry) on every ordered pair of a pool of generated "
-                "ontologies (36 quick / 144 thorough: extra terms, two edge patterns, obsolete/replacement variants, gene/disease selections, name shapes) and emits both sides as v3 bytes with the "
+                "ontologies (72 quick / 288 thorough: extra terms, four edge patterns incl. two with equally many but different parents, obsolete/replacement variants, gene/disease selections, name shapes) and emits both sides as v3 bytes with the "
                 "expected report; the harness loads both, calls compare and checks every list and delta exactly, plus the laws on the real code: compare(l,l) and compare(l, roundtrip(l)) empty "
                 "in both directions, swapping swaps added/removed; non-trivial = the two sides differ")
     co = tlc(ctx, "mc/MC_CompareQuick.cfg" if ctx.quick else "mc/MC_Compare.cfg", "mc/MC_Compare.tla", workers=14, timeout=1800)["out"]
@@ -789,8 +789,8 @@ def check_C16(ctx):
                 "machine of HpoCore receive terms, links and facts in EVERY order; invariants OrderFree / CachesOrderFree: projection, caches and (n, N) of the built state equal a pure function of "
                 "the fact set.  One REPLAY line per order.  The harness issues the calls in that order, in canonical and in reversed order, through the Builder, through binary v3/v2 files whose "
                 "records and id lists follow those orders or a random permutation, and through text files with permuted stanzas and rows; every ontology must equal the specification's projection and "
-                "all must be observationally identical (whole read API; iteration order excluded).  Beyond TLC's sizes: random fact sets of 40-90 terms (deep multi-parent DAGs, obsolete flags, 30-120 facts) "
-                "under 4 permutations x Builder / binary / text, compared pairwise; non-trivial = at least two links or facts to permute")
+                "all must be observationally identical (whole read API; iteration order excluded).  Beyond TLC's sizes: random fact sets of 40-90 terms (multi-parent DAGs, obsolete flags, 30-120 facts) and, every third one, DEEP sets of 150-260 terms with a backbone chain through all of them, "
+                "under 4 orders (canonical, reversed, 2 random) x Builder / binary / text, compared pairwise; non-trivial = at least two links or facts to permute")
     out = tlc(ctx, "mc/MC_Order.cfg" if ctx.quick else "mc/MC_OrderThorough.cfg", "mc/MC_Order.tla", workers=14, timeout=3000)["out"]
     s = hv(ctx, "replay-order", prop="C16", big=(32 if ctx.quick else 400), stride=(1 if ctx.quick else 1), all_concs=(0 if ctx.quick else 1), **{"in": out})
     ctx.traces += s.get("cases", 0)
